@@ -507,6 +507,12 @@ func (e *Engine) instrWrites(fc *FnCtx, in ssa.Instruction, ws map[string]HeapVa
 			return
 		}
 		if c.IsInvoke() {
+			if n, ok := types.Unalias(c.Value.Type()).(*types.Named); ok && n.Obj().Pkg() != nil && n.Obj().Pkg().Path() == "github.com/ugorji/go/codec" && c.Method.Name() == "Encode" {
+				for _, hv := range bufWrites("github.com/ugorji/go/codec.(*Encoder).Encode") {
+					add(hv)
+				}
+				return
+			}
 			if isNoopIface(c.Value.Type()) {
 				return
 			}
@@ -557,6 +563,12 @@ func (e *Engine) instrWrites(fc *FnCtx, in ssa.Instruction, ws map[string]HeapVa
 			for _, hv := range spec {
 				add(hv)
 			}
+			return
+		}
+		if len(callee.Blocks) == 0 && touchesBuffer(callee) {
+			add(bufLenVar)
+			add(bufItemsVar)
+			add(bufEndVar)
 			return
 		}
 		for k, v := range e.fnWrites(fc, callee, depth) {
